@@ -245,8 +245,44 @@ def fam_abstract_overridden():
     return FamilySpec("abstract-methods-overridden", ["C17"], run)
 
 
+ONCE_FOR_ALL = ("_consolidate_expression_lacking_variables", "_fully_reduce", "_normalize", "_numeric_partials",
+                "_synthetic_partials", "at")
+
+
+def fam_base_methods_inherited():
+    """The public entries and drivers defined on Expression are proved once, for the inherited
+    implementation with a receiver of unknown class, and that contract is assumed for every
+    operand.  A subclass that overrides one of them is outside those proofs: the check is then
+    undecided for the properties that rest on the method (the operator dunders get a family of
+    their own per overriding class instead, see structure.py)."""
+    def run(prog, tier):
+        fam = H.Family("base-methods-inherited")
+        base = prog.classes["Expression"]
+        bad = []
+        n = 0
+        for cls in prog.concrete_expression_classes():
+            for name in ONCE_FOR_ALL:
+                fd = base.methods.get(name)
+                if fd is None:
+                    continue
+                n += 1
+                if cls.lookup(name) is not fd:
+                    bad.append(f"{cls.name}.{name}")
+                else:
+                    fam.obls.append(H.Obl(f"base-methods-inherited/{cls.name}.{name}@{n}", PROPS_ON_BASE, [], z3.BoolVal(True), kind="mro"))
+        fam.paths = n
+        if bad:
+            fam.error = ("unsupported: " + ", ".join(bad) + " override(s) a method of Expression that is proved once for the inherited "
+                         "implementation; the override has no contract of its own")
+        return fam
+    return FamilySpec("base-methods-inherited", PROPS_ON_BASE, run)
+
+
+PROPS_ON_BASE = ["C01", "C02", "C03", "C04", "C05", "C06", "C07", "C08", "C09", "C14", "C17"]
+
+
 def specs(prog, tier):
-    out = []
+    out = [fam_base_methods_inherited()]
     for cls, k, label, bnd in class_variants(prog, tier):
         out.append(fam_reset(cls, k, label, bnd))
         out.append(fam_history_at_at(cls, k, label, bnd))
